@@ -10,6 +10,7 @@ CONSTANTS
   IncOf <- MCIncOf
   KeepHigherIncarnation = FALSE
   ReuseUnattested = TRUE
+  ReadBackFailOpen = FALSE
   StateEarly = FALSE
   InitScenarios = {"fresh"}
   InitDocs <- DocsV1
